@@ -61,8 +61,21 @@ def norm(v, t):
   return v
 
 
-def model_requests(prog, preds):
+def any_rules(rules):
+  """ArgMin/ArgMax head aggregates are evaluated as the set of admissible winners."""
+  out = []
+  for r in rules:
+    r2 = dict(r)
+    r2['args'] = [[f, (dict(x, aggop=x['aggop'] + 'Any') if isinstance(x, dict) and x.get('aggop') in ('ArgMin', 'ArgMax') else x)]
+                  for f, x in r['args']]
+    out.append(r2)
+  return out
+
+
+def model_requests(prog, preds, any_winners=False):
   a = prog.ast()
+  if any_winners:
+    a['rules'] = any_rules(a['rules'])
   return {'op': 'denote', 'rules': a['rules'], 'strata': a['strata'], 'query': [p.name for p in preds]}
 
 
@@ -74,6 +87,9 @@ def compare(ck, prog, text, preds, real, model, key_of, extra=None):
     ck.features['model-error'] += 1
     return 0
   for p in preds:
+    if p.name in getattr(prog, 'tie_preds', ()):
+      ck.features['tie-skipped-pred'] += 1
+      continue
     r = real[p.name]
     exp_rows = canon_model_rows(model['result'][p.name], p)
     rp = {'program': text, 'pred': p.name, 'expected_rows': exp_rows[:50]}
@@ -127,8 +143,60 @@ def _gen_one(job):
       return prog, model
     if max([len(v) for v in model['result'].values()] + [0]) > MAX_ROWS:
       continue
+    prog.tie_preds = tie_affected(prog)
     return prog, model
   return None
+
+
+def body_preds(x, acc):
+  if isinstance(x, dict):
+    if 'atom' in x:
+      acc.add(x['atom'])
+    if 'call' in x:
+      acc.add(x['call'])
+    for v in x.values():
+      body_preds(v, acc)
+  elif isinstance(x, list):
+    for v in x:
+      body_preds(v, acc)
+  return acc
+
+
+def tie_affected(prog):
+  """Predicates whose value depends on the choice among tied ArgMin/ArgMax candidates (ties are excepted by
+  the property): found by evaluating the reference semantics with 'all admissible winners'."""
+  import subprocess
+  if not any(p.anycols for p in prog.preds):
+    return set()
+  req = model_requests(prog, prog.preds, any_winners=True)
+  try:
+    o = subprocess.run([core.DRIVER], input=(json.dumps(req, ensure_ascii=False) + '\n').encode('utf-8'),
+                       stdout=subprocess.PIPE, stderr=subprocess.PIPE, timeout=8)
+    m = json.loads(o.stdout.decode('utf-8'))
+  except Exception:  # noqa: BLE001
+    return {p.name for p in prog.preds}
+  if 'error' in m:
+    return {p.name for p in prog.preds if p.kind != 'facts'}
+  tied = set()
+  for p in prog.preds:
+    if not p.anycols:
+      continue
+    for row in m['result'][p.name]:
+      for c, v in row:
+        if c in p.anycols and isinstance(v, dict) and '$r' in v and len(v['$r'][0][1]) > 1:
+          tied.add(p.name)
+  # transitive dependents
+  deps = {}
+  for r in prog.rules:
+    deps.setdefault(r['head'], set()).update(body_preds(r, set()) - {r['head']})
+  changed = True
+  while changed:
+    changed = False
+    for h, ds in deps.items():
+      if h not in tied and ds & tied:
+        tied.add(h)
+        changed = True
+  return tied
 
 
 def make_programs(ck, n, mask, kwargs=None, builder=None):
